@@ -80,13 +80,18 @@ def echo_case(value):
     ae = svc.make_server({'on_receive_echo': outcome_handler(outcome, 'CEchoRSPMessage')},
                          [alias(sopclass.verification_scp, [sop])])
     req = {0x0002: sop, 0x0100: 0x0030, 0x0110: msg_id}
-    acc, fac, exc = run_primary(ae, [(pc_id, sop)], [(req, None, pc_id)])
+    # the peer negotiated the same class on two contexts and uses both
+    pc2 = (pc_id + 2) % 256 or 1
+    req2 = {0x0002: sop, 0x0100: 0x0030, 0x0110: (msg_id + 1) & 0xFFFF}
+    acc, fac, exc = run_primary(ae, [(pc_id, sop), (pc2, sop)], [(req, None, pc_id), (req2, None, pc2), (req, None, pc_id)])
     expect_clean(exc, case, 'C-ECHO')
     rsps = fac.instances[0].sent_msgs()
-    if len(rsps) != 1:
-        raise Violation('%s:C-ECHO-RQ:answers' % PROP, 'C-ECHO request got %d responses' % len(rsps), case)
+    if len(rsps) != 3:
+        raise Violation('%s:C-ECHO-RQ:answers' % PROP, '3 C-ECHO requests got %d responses' % len(rsps), case)
     want = 0x0110 if outcome[0] == 'raise' else outcome[1]
     svc.check_response(PROP, req, rsps[0], pc_id, lambda s: s == want, case)
+    svc.check_response(PROP, req2, rsps[1], pc2, lambda s: s == want, case, what='(second context of the same class) ')
+    svc.check_response(PROP, req, rsps[2], pc_id, lambda s: s == want, case)
 
 
 # ---- C-STORE -----------------------------------------------------------------------------------
@@ -103,14 +108,16 @@ def store_case(value):
                          [alias(sopclass.storage_scp, sorted({sop, sop_msg}))])
     data = svc.enc_ds(svc.simple_ds(PatientName='A^B', SOPClassUID=sop_msg, SOPInstanceUID=inst))
     reqs = [{0x0002: sop_msg, 0x0100: 0x0001, 0x0110: (msg_id + k) & 0xFFFF, 0x0700: 0, 0x1000: inst} for k in range(n)]
-    acc, fac, exc = run_primary(ae, [(pc_id, sop)], [(r, data, pc_id) for r in reqs])
+    pc2 = (pc_id + 2) % 256 or 1
+    pcs = [pc_id if k % 2 == 0 else pc2 for k in range(n)]
+    acc, fac, exc = run_primary(ae, [(pc_id, sop), (pc2, sop)], [(r, data, p) for r, p in zip(reqs, pcs)])
     expect_clean(exc, case, 'C-STORE')
     rsps = fac.instances[0].sent_msgs()
     if len(rsps) != n:
         raise Violation('%s:C-STORE-RQ:answers' % PROP, '%d C-STORE requests got %d responses' % (n, len(rsps)), case)
     want = 0xC000 if outcome[0] == 'raise' else outcome[1]
-    for r, rsp in zip(reqs, rsps):
-        svc.check_response(PROP, r, rsp, pc_id, lambda s: s == want, case)
+    for r, rsp, p in zip(reqs, rsps, pcs):
+        svc.check_response(PROP, r, rsp, p, lambda s: s == want, case)
     if len(got) != n:
         raise Violation('%s:C-STORE-RQ:handler' % PROP, 'handler called %d times for %d requests' % (len(got), n), case)
 
@@ -384,7 +391,7 @@ def run(ctx):
                        'Failure-class status is accepted, but the request must be answered',
                        'storage commitment requests use the well-known SOP instance 1.2.840.10008.1.20.1.1',
                        'provider replaced by vf/fakedul.py; the C-GET user side is covered by C19']
-    n = 600 if ctx.thorough else 60
+    n = 2500 if ctx.thorough else 60
     parallel(ctx, run_family, [{'family': f, 'n': n} for f in sorted(FAMILIES)])
 
 
